@@ -282,51 +282,52 @@ def computeRootFrom (H : α → α → α) (lf : α) : List (α × Nat) → α
 def verify [BEq α] (H : α → α → α) (t : Pm α D) (lf : α) (p : List (α × Nat)) : Outcome Bool :=
   if computeRootFrom H lf p == t.root then .ok true else .err
 
+/-- `remove_indices(indices)` (sorted, non-empty): resets the whole span `[first, last]` -/
+def removeIndices (S : Type) [MapLike S (Nat × Nat) α] (H : α → α → α) (dflt : α) (idx : List Nat) : PmM (Pm α D) Unit :=
+  let start := idx.headD 0
+  let end_ := idx.getLastD 0 + 1
+  do treeSetRange S H start (List.replicate (end_ - start) dflt)
+     setFlags 0 ((List.range (end_ - start)).map (start + ·))
+
+/-- `remove_indices_and_set_leaves(start, leaves, indices)` with its index arithmetic as written -/
+def removeIndicesAndSetLeaves (S : Type) [MapLike S (Nat × Nat) α] (H : α → α → α) (dflt : α)
+    (start : Nat) (leaves : List α) (idx : List Nat) : PmM (Pm α D) Unit := fun t =>
+  let minIndex := idx.headD 0
+  let maxIndex := start + leaves.length
+  -- `vec![default; max_index - min_index]`: underflow wraps to a huge length ⇒ allocation panic
+  if maxIndex < minIndex then (t, .panic) else
+  let len := maxIndex - minIndex
+  let base : Array α := Array.replicate len dflt
+  -- `for i in min_index..start { if !indices.contains(&i) { set_values[i - min_index] = tree.get(i)? } }`
+  let keepIdx := (List.range (start - minIndex)).map (minIndex + ·) |>.filter (fun i => !idx.contains i)
+  if keepIdx.any (fun i => i ≥ t.cap) then (t, .err) else
+  if keepIdx.any (fun i => i - minIndex ≥ len) then (t, .panic) else
+  let a1 := keepIdx.foldl (fun a i => a.setIfInBounds (i - minIndex) (t.getElem t.depth i)) base
+  -- `set_values[start - min_index + i] = leaf`: `start - min_index` underflows when min_index > start
+  if minIndex > start ∧ ¬ leaves.isEmpty then (t, .panic) else
+  if (List.range leaves.length).any (fun i => start - minIndex + i ≥ len) then (t, .panic) else
+  let a2 := (leaves.zipIdx).foldl (fun a (v, i) => a.setIfInBounds (start - minIndex + i) v) a1
+  (do treeSetRange S H start a2.toList
+      setFlags 0 idx
+      setFlags 1 ((List.range (len - start)).map (start + ·))) t
+
 /-- insertion sort (the adapter calls `indices.sort()`) -/
 def insertSorted (x : Nat) : List Nat → List Nat
   | [] => [x]
   | y :: r => if x ≤ y then x :: y :: r else y :: insertSorted x r
 def sortNat (l : List Nat) : List Nat := l.foldr insertSorted []
 
-/-- `Vec::dedup` on a sorted list -/
-def dedupSorted : List Nat → List Nat
-  | [] => []
-  | [x] => [x]
-  | x :: y :: r => if x = y then dedupSorted (y :: r) else x :: dedupSorted (y :: r)
-
-/-- `remove_indices_and_set_leaves(start, leaves, indices)` (after the `fix:` commit): one range
-    write over `[min_index, max_index)` covering the removed positions and the new leaves -/
-def removeIndicesAndSetLeaves (S : Type) [MapLike S (Nat × Nat) α] (H : α → α → α) (dflt : α)
-    (start : Nat) (leaves : List α) (idx : List Nat) : PmM (Pm α D) Unit := fun t =>
-  let end_ := start + leaves.length
-  let minI := if leaves.isEmpty then idx.headD 0 else min (idx.headD 0) start
-  let maxI := if leaves.isEmpty then idx.getLastD 0 + 1 else max (idx.getLastD 0 + 1) end_
-  let positions := (List.range (maxI - minI)).map (minI + ·)
-  -- `self.tree.get(i)?` fails for a position outside the tree
-  if positions.any (fun i => ¬ (start ≤ i ∧ i < end_) ∧ ¬ idx.contains i ∧ i ≥ t.cap) then (t, .err) else
-  let vals := positions.map (fun i =>
-    if start ≤ i ∧ i < end_ then leaves.getD (i - start) dflt
-    else if idx.contains i then dflt
-    else t.getElem t.depth i)
-  (do treeSetRange S H minI vals
-      setFlags 0 idx
-      setFlags 1 ((List.range leaves.length).map (start + ·))) t
-
-/-- `PmTree::override_range` (after the `fix:` commit): validation, removal indices at or above
-    `leaves_set()` dropped, then the dispatch on `(leaves.len(), indices.len())` -/
+/-- `PmTree::override_range`: six-way dispatch on `(leaves.len(), indices.len())` -/
 def overrideRange (S : Type) [MapLike S (Nat × Nat) α] (H : α → α → α) (dflt : α)
-    (start : Nat) (leaves : List α) (indices : List Nat) : PmM (Pm α D) Unit := fun t =>
-  if leaves.isEmpty ∧ indices.isEmpty then (t, .err)
-  else if start + leaves.length > t.cap then (t, .err)
-  else if indices.any (fun i => i ≥ t.cap) then (t, .err)
-  else
-    let idx := dedupSorted (sortNat (indices.filter (fun i => i < t.next)))
-    (match leaves.length, idx.length with
-      | 0, 0 => PmM.pure' ()
-      | 1, 0 => set H start (leaves.headD dflt)
-      | 0, 1 => delete H dflt (idx.headD 0)
-      | _, 0 => setRange S H start leaves
-      | _, _ => removeIndicesAndSetLeaves S H dflt start leaves idx) t
+    (start : Nat) (leaves : List α) (indices : List Nat) : PmM (Pm α D) Unit :=
+  let idx := sortNat indices
+  match leaves.length, idx.length with
+  | 0, 0 => PmM.fail
+  | 1, 0 => set H start (leaves.headD dflt)
+  | 0, 1 => delete H dflt (idx.headD 0)
+  | _, 0 => setRange S H start leaves
+  | 0, _ => removeIndices S H dflt idx
+  | _, _ => removeIndicesAndSetLeaves S H dflt start leaves idx
 
 /-- `set_metadata` -/
 def setMetadata (md : List UInt8) : PmM (Pm α D) Unit := do
